@@ -194,6 +194,25 @@ class Check:
                                   "real code, never counted as proved): {}".format(
                                       len(n_proved), len(self.functions),
                                       "; ".join("{} [{}]".format(k, b["bound"]) for k, b in self.bounded.items()) or "none"))
+        # vacuity guard: obligations per function under contract, compared with the committed lock (a drop means that a
+        # contract silently stopped generating obligations, e.g. after a rename or a path that became infeasible)
+        per_fn = {}
+        for o in n_proved:
+            parts = o.name.split("/")
+            key = parts[1] if len(parts) > 2 else parts[0]
+            per_fn[key] = per_fn.get(key, 0) + 1
+        cov["obligations_per_function"] = per_fn
+        lock_path = os.path.join(VERIF, "contracts", "obligations.lock")
+        if os.path.exists(lock_path) and not os.environ.get("PYVC_NO_LOCK"):
+            try:
+                lock = json.load(open(lock_path)).get(self.pid, {})
+            except Exception:
+                lock = {}
+            for key, n_lock in lock.items():
+                n_now = per_fn.get(key, 0)
+                if n_now == 0 and not violations and not self.errors:
+                    self.errors.append("vacuity guard: {} generated {} obligations on the pinned tree and none now".format(key, n_lock))
+            cov["lock_checked"] = len(lock)
         cov.update(self.extra)
         # exploration-style keys (measured): bounded evaluations + obligations
         ev = sum(b["evaluations"] for b in self.bounded.values())
